@@ -6,6 +6,7 @@ import OnetVerif.Proofs.C12NaryGen
 import OnetVerif.Props.C12
 import OnetVerif.Props.C12Flat
 import OnetVerif.Props.C12BigDec
+import OnetVerif.Props.C12BigSrc
 /-! Property C12 — the definitions regenerated from the Go source (`Gen/C12.lean`, written by `harness/cmd/go2lean` on
 every check run from `tree.go`): the three wrappers `Roster.GenerateNaryTree`, `GenerateBinaryTree`, `GenerateStar`.
 `GenerateNaryTreeWithRoot` (nested loops, `break`) is outside the translated subset; it is a **parameter** of the
@@ -500,6 +501,23 @@ theorem c12_gen_withRoot_guard (keys : List Nat) (k : Nat) :
   bigdec_withRoot_guard keys k
 
 example : Gen.C12Big.withRoot_guard (searchInt [5, 6, 7] 9) = true ∧ Gen.C12Big.withRoot_guard (searchInt [5, 6, 7] 7) = false := by
+  decide
+
+
+/-- **the hand model of `GenerateBigNaryTree` is the loop nest of the source's decisions**: `genBigSrc`
+(Props/C12BigSrc.lean) is the function written with the extracted `Gen.C12Big.*` only — the empty-roster panic, `useAll`,
+`1 % ilLen`, the level loop `totalNodes < nodes`, `children` with its cap, the child loop `n < children`, the pick loop —
+and `genBig` equals it for every branching factor, every host layout and every `nodes ≥ 1` (induction through the three
+loops; invariants `len(used) = ilLen`, `roIndex < ilLen`, `totalNodes ≤ nodes`, a level is never empty).  Every theorem
+about the big generator (`c12_big_wellformed`, `c12_big_terminates`, `c12_big_use_all`, the two negation witnesses) is
+thereby a theorem about a function all of whose decisions are regenerated from `tree.go` on every run; what stays by
+hand is the nesting and the four bookkeeping statements, pinned by the `+full` shape. -/
+theorem c12_gen_big_eq_src (c : BigCfg) (hnodes : 1 ≤ c.nodes) : genBig c = genBigSrc c :=
+  genBig_eq_src c hnodes
+
+/-- non-vacuity: on the known finding's input (3 servers on one host, N 2, 7 nodes) the source's loop nest returns the
+tree with the repeated servers -/
+example : genBigSrc ⟨2, 7, [0, 0, 0]⟩ = .tree [[(0, 0)], [(1, 0), (2, 0)], [(0, 0), (1, 0), (2, 1), (0, 1)]] := by
   decide
 
 end C12
